@@ -10,7 +10,8 @@
     /repo/pkg/controller/runtime/internal/qruntime/qruntime.go  (runWithBackoff :395, runWithPanicHandler :428,
                                                                  runReconcile :236 / runOnce :349 → Cosi.Model.Queue)
     /repo/pkg/task/task.go                                      (runWithRestarts :63, runWithPanicHandler :93)
-    /repo/pkg/controller/runtime/runtime.go                     (Run :182, processEvents :318,
+    /repo/pkg/controller/runtime/runtime.go                     (NewRuntime :66 — `watchErrors: make(chan error, 1)`; Run :182,
+                                                                 processEvents :318 — the report of a failed watch :323,
                                                                  deduplicateWatchEvents :375, deliverDeduplicatedEvents :432)
     /repo/pkg/state/impl/inmem/collection.go                    (the `Errored` event a failed watch delivers)
 
@@ -225,6 +226,8 @@ structure Sys where
   deliverer : Bool := true        -- deliverDeduplicatedEvents is alive
   status : Status := .running
   crashed : Bool := false         -- a panic escaped a loop: the process is gone
+  errq : Nat := 0                 -- errors sitting in the buffer of `watchErrors` that nobody will receive any more
+  stuck : Bool := false           -- deduplicateWatchEvents is blocked in the report of a failed watch (runtime.go:323)
 
 def Sys.setCtl (s : Sys) (i : Nat) (c : Ctl) : Sys :=
   { s with ctl := fun j => if j = i then c else s.ctl j }
@@ -274,6 +277,61 @@ def Ctl.reconcile (f : Nat → Nat → Nat) (i : Nat) (input : Nat) (c : Ctl) (r
 def Sys.anyCrashed (s : Sys) : Bool :=
   (List.range s.n).any fun i => (s.ctl i).loop.phase == .crashed
 
+/-! ### the channel `watchErrors` (runtime.go:41, made in NewRuntime :73)
+
+  `processEvents` reports a failed watch by sending on it (:323), `Run` receives from it in its
+  only select (:218) and never again once it has left that select (it goes on to `runCtxCancel();
+  group.Wait()`). The group it waits for contains the sender. So the report must never block once
+  `Run` has stopped listening: whether it does depends on the capacity of the channel and on the
+  shape of the send, both regenerated from the source. -/
+
+/-- the two facts about `watchErrors` the machine depends on -/
+structure ChanCfg where
+  cap : Nat                  -- `make(chan error, cap)`
+  send : Gen.SendKind        -- the shape of the send in processEvents
+deriving DecidableEq, Repr, Inhabited
+
+/-- the channel as it is in the source tree -/
+def genCfg : ChanCfg :=
+  { cap := if Gen.Restart.watchErrChanPrivate then Gen.Restart.watchErrCap else 0,
+    send := Gen.Restart.watchErrSend }
+
+/-- the report of a failed watch when NOBODY is receiving (Run has left its select): does the
+    send statement complete?  A bare send needs a free buffer slot; a context-aware one also
+    completes (by giving up) once runCtx is cancelled; a non-blocking one always does (dropping the
+    error); an unrecognised one is assumed to block. -/
+def ChanCfg.completes (c : ChanCfg) (s : Sys) : Bool :=
+  match c.send with
+  | .plain => decide (s.errq < c.cap)
+  | .ctxAware => decide (s.errq < c.cap) || s.status.isCancelled
+  | .nonBlocking => true
+  | .unknown => false
+
+/-- the recognised shape: the report is followed by `return false`, on which deduplicateWatchEvents
+    returns; otherwise (pessimistically) the failed watch is ignored and the runtime runs on -/
+def reportEndsIntake : Bool := Gen.Restart.watchErrAborts && Gen.Restart.dedupStopsOnAbort
+
+/-- `processEvents` meets an `Errored` event (runtime.go:321–326): `watchErrors <- e.Error; return
+    false`, which ends deduplicateWatchEvents (:400, :418).
+      * Run is in its select (:215): it receives the error (directly from the sender if the channel
+        is unbuffered, out of the buffer otherwise), wraps it, cancels runCtx (:218–222);
+      * Run has left its select (runCtx was cancelled first): nobody receives. The send completes
+        into a free buffer slot (the error is never looked at: Run returns nil) — or the goroutine
+        blocks in it, for good: the send does not watch the context (`stuck`). -/
+def reportStep (c : ChanCfg) (s : Sys) (e : Nat) : Sys :=
+  if !reportEndsIntake then s
+  else if s.status == .running && Gen.Restart.runReturnsWatchErr then
+    { s with intake := false, status := .cancelled (some e) }
+  else if c.completes s then
+    { s with intake := false, errq := if s.errq < c.cap then s.errq + 1 else s.errq }
+  else { s with stuck := true }
+
+/-- the pipeline goroutines notice runCtx.Done in their selects — all but a deduplicateWatchEvents
+    that sits in a send which does not watch the context -/
+def pipeStop (c : ChanCfg) (s : Sys) : Sys :=
+  let held := s.intake && s.stuck && c.send != .ctxAware
+  { s with intake := held, deliverer := false, stuck := held }
+
 /-- what an enabled event does -/
 def stepOn (f : Nat → Nat → Nat) (s : Sys) (e : Ev) : Sys :=
   match e with
@@ -288,16 +346,11 @@ def stepOn (f : Nat → Nat → Nat) (s : Sys) (e : Ev) : Sys :=
     let s' := s.setCtl i c
     { s' with crashed := c.loop.phase == .crashed }
   | .restart i => s.setCtl i { s.ctl i with loop := rstep (s.ctl i).loop .timerFires }
-  | .watchErr e =>
-    -- processEvents: `watchErrors <- e.Error; return false` ends deduplicateWatchEvents;
-    -- Run: `case watchErr = <-watchErrors` wraps it, cancels runCtx (runtime.go:218–222)
-    let dead := Gen.Restart.watchErrAborts && Gen.Restart.dedupStopsOnAbort
-    { s with intake := s.intake && !dead,
-             status := if dead && Gen.Restart.runReturnsWatchErr && s.status == .running then .cancelled (some e) else s.status }
+  | .watchErr e => reportStep genCfg s e
   | .cancel => { s with status := .cancelled none }
   | .observe i =>
     if Gen.Restart.adaptersInGroup then s.setCtl i { s.ctl i with loop := { (s.ctl i).loop with phase := .stopped } } else s
-  | .pipeObserve => { s with intake := false, deliverer := false }
+  | .pipeObserve => pipeStop genCfg s
 
 /-- one step of the runtime machine; an event that is not enabled changes nothing -/
 def step (f : Nat → Nat → Nat) (s : Sys) (e : Ev) : Sys := if e.enabled s then stepOn f s e else s
@@ -305,6 +358,20 @@ def step (f : Nat → Nat → Nat) (s : Sys) (e : Ev) : Sys := if e.enabled s th
 def run (f : Nat → Nat → Nat) (s : Sys) : List Ev → Sys
   | [] => s
   | e :: rest => run f (step f s e) rest
+
+/-- the same machine over an arbitrary `watchErrors` channel (for what-if statements about other
+    capacities / send shapes; `stepC genCfg = step`, theorem `C16.stepC_gen`) -/
+def stepC (c : ChanCfg) (f : Nat → Nat → Nat) (s : Sys) (e : Ev) : Sys :=
+  if e.enabled s then
+    match e with
+    | .watchErr x => reportStep c s x
+    | .pipeObserve => pipeStop c s
+    | e => stepOn f s e
+  else s
+
+def runC (c : ChanCfg) (f : Nat → Nat → Nat) (s : Sys) : List Ev → Sys
+  | [] => s
+  | e :: rest => runC c f (stepC c f s e) rest
 
 /-- `n` registered controllers (each with its initial reconcile pending), input `v` -/
 def init (n v : Nat) : Sys := { n := n, ctl := fun _ => {}, input := v }
